@@ -384,6 +384,25 @@ class MaskProp(core.Prop):
                     self._rt.append(("real code: removing the non-blocking / inactive / out-of-range agents "
                                      "changes the mask", {"layout": d0, "filtered": d1}))
 
+        # F. crowds: more agents than the window has cells (26-93 agents for ranges 2-4), several to a cell - a
+        #    non-blocking agent that stood there first and a blocker that joined it; what a cell hides does not
+        #    depend on how many agents the simulation has
+        for i in range(50 if quick else 1500):
+            R = rng.randint(2, 4)
+            pad = rng.randint(0, 1)
+            k = (2 * R + 1) ** 2 + rng.randint(1, 12)
+            offs, flags = [], []
+            while len(offs) < k:
+                o = (rng.randint(-R - pad, R + pad), rng.randint(-R - pad, R + pad))
+                if rng.random() < 0.12:
+                    offs += [o, o]
+                    flags += [(False, True), (True, True)]
+                else:
+                    offs.append(o)
+                    flags.append((rng.random() < 0.08, rng.random() < 0.9))
+            yield from self._with_images(R, offs, flags, "crowd", pad, rng.random() < 0.2,
+                                         syms=SYMS if i % 5 == 0 else SYMS[:2])
+
     def extra_checks(self, tier, rng, report):
         report.notes["direct_checks_on_real_code"] = self.sym_checks
         report.notes["direct_checks_failed"] = self.direct_failures
